@@ -460,8 +460,10 @@ func genSpec(r *run.Rand, thorough bool, known knownFn) *Spec {
 	if s.Delim != "" {
 		d := s.Delim
 		prevA, prevB := okA, okB
-		okA = func(k string) bool { return !strings.Contains(k, d) && (prevA == nil || prevA(k)) }
-		okB = func(k string) bool { return !strings.Contains(k, d) && (prevB == nil || prevB(k)) }
+		// the key must not contain the delimiter, nor end in the beginning of it ("&:" before "::" would split one byte early)
+		clean := func(k string) bool { return strings.Index(k+d, d) == len(k) }
+		okA = func(k string) bool { return clean(k) && (prevA == nil || prevA(k)) }
+		okB = func(k string) bool { return clean(k) && (prevB == nil || prevB(k)) }
 	}
 
 	if r.Intn(4) == 0 {
